@@ -335,10 +335,11 @@ func MapSet(m *Map, k, v Val) *Map {
 	i := sort.Search(len(m.P), func(i int) bool { return Cmp(m.P[i].K, k) >= 0 })
 	np := make([]KV, 0, len(m.P)+1)
 	np = append(np, m.P[:i]...)
-	np = append(np, KV{k, v})
 	if i < len(m.P) && Cmp(m.P[i].K, k) == 0 {
+		np = append(np, KV{m.P[i].K, v}) // an update keeps the key that is already there (2 stays 2 when 2.0 is set)
 		np = append(np, m.P[i+1:]...)
 	} else {
+		np = append(np, KV{k, v})
 		np = append(np, m.P[i:]...)
 	}
 	return &Map{P: np, Big: m.Big || len(np) > 4}
